@@ -4,6 +4,7 @@ Helper lemmas: ProofsMap / ProofsQueue / ProofsSet / ProofsRW / ProofsCache.
 -/
 import GoZero.C16.ProofsSet
 import GoZero.C16.ProofsRW
+import GoZero.C16.ProofsCache2
 namespace GoZero.C16
 
 /-! ## Queue behaves as a FIFO -/
@@ -140,5 +141,100 @@ example : ((RW.new 3 10 false 5).run [(5, 1), (14, 2), (15, 3), (25, 4)]).reduce
     ∧ ((RW.new 3 10 true 5).run [(5, 1), (14, 2), (15, 3), (25, 4)]).reduce 34 = [[1, 2], [3]] := by decide
 
 example : List.Pairwise (· ≤ ·) (5 :: [(5, 1), (14, 2), (15, 3), (25, 4)].map (·.1)) := by decide
+
+/-! ## Cache -/
+
+theorem cache_new_inv {T : Type} (limit : Nat) (x : T) : ({ limit := limit, data := [], lru := [], timers := x } : CacheG T).Inv :=
+  ⟨by simp [akeys], fun _ => by simp, fun _ k => by simp [akeys], fun _ => by simp⟩
+
+/-- **The cache over the timing wheel behaves as the cache over the timer table.**  For every limit
+(0 = no LRU), every number of wheel slots ≥ 1 and every history of Set / Get / Del / Take / tick with any
+(jittered) expiry, every operation of the model of the code (map + `keyLru` + C12 timing-wheel model) has the
+same result, the same evicted keys, the same expired keys and the same loader calls as the abstract cache
+whose timers are the table `key ↦ ticks remaining` (uses `C12.step_refines`). -/
+theorem cache_refines_timer_table (limit slots : Nat) (hs : 1 ≤ slots) (ops : List COp) :
+    CacheG.run C12.step (Cache.new limit slots) ops = CacheG.run C12.Spec.step (Spec.ACache.new limit) ops :=
+  run_rel wheel_sim ops ⟨rfl, rfl, rfl, ⟨C12.init_wf slots hs, by simp [C12.abs, C12.TW.init, Cache.new, Spec.ACache.new]⟩⟩
+
+/-- **Never more than `limit` entries** (any timer mechanism, any history). -/
+theorem cache_size_le_limit {T : Type} (ts : TStep T) (limit : Nat) (hl : 0 < limit) (x : T) (ops : List COp) :
+    (CacheG.after ts { limit := limit, data := [], lru := [], timers := x } ops).data.length ≤ limit := by
+  obtain ⟨h1, h2⟩ := inv_after ts ops _ (cache_new_inv limit x)
+  have := CacheG.Inv.size_le _ h1 (by rw [h2]; exact hl)
+  rw [h2] at this
+  exact this
+
+/-- the recency list holds exactly the keys of the map, once each (invariant behind the size bound) -/
+theorem cache_lru_tracks_keys {T : Type} (ts : TStep T) (limit : Nat) (x : T) (ops : List COp) :
+    (CacheG.after ts { limit := limit, data := [], lru := [], timers := x } ops).Inv :=
+  (inv_after ts ops _ (cache_new_inv limit x)).1
+
+/-- **Eviction is in least-recently-used order.**  In any reachable state, a `Set` evicts at most one key, and
+only when the key is new and the cache is full; the victim is the *last* element of the recency list (whose
+head is always the key used most recently, see `cache_use_moves_to_front`) and never the key being set. -/
+theorem cache_evicts_lru_order {T : Type} (ts : TStep T) (c : CacheG T) (h : c.Inv) (k v t : Nat) :
+    (CacheG.set ts c k v t).2.evicted = []
+    ∨ ∃ old, (CacheG.set ts c k v t).2.evicted = [old] ∧ c.lru.getLast? = some old ∧ old ≠ k
+        ∧ k ∉ c.lru ∧ c.lru.length = c.limit := by
+  have h3 := (lruAdd_after_insert ts c k v h).2.2
+  unfold CacheG.set
+  dsimp only
+  rcases h3 with ⟨e, _⟩ | ⟨old, e1, _, e3, e4, e5, e6⟩
+  · exact Or.inl e
+  · exact Or.inr ⟨old, e1, e3, e4, e5, e6⟩
+
+/-- a hit (`Get`, or `Take` on a present key) moves the key to the front of the recency list, evicts nothing -/
+theorem cache_use_moves_to_front {T : Type} (ts : TStep T) (c : CacheG T) (hl : 0 < c.limit) (h : c.Inv)
+    (k v : Nat) (hv : alookup c.data k = some v) :
+    (CacheG.get ts c k).1.lru = k :: c.lru.filter (· ≠ k) ∧ (CacheG.get ts c k).2.evicted = [] := by
+  have hm : k ∈ c.lru := (h.sameKeys hl k).2 (mem_akeys_of_lookup _ _ _ hv)
+  have h0 : ¬ c.limit = 0 := by omega
+  simp [CacheG.get, hv, CacheG.lruAdd, h0, hm]
+
+/-- **`Take` calls the loader only on a miss** (and then exactly once), `Get`/`Take` on a hit return the stored value. -/
+theorem take_loads_only_on_miss {T : Type} (ts : TStep T) (c : CacheG T) (k v : Nat) (f : Bool) (t : Nat) :
+    ((CacheG.take ts c k v f t).2.loaded = true ↔ alookup c.data k = none)
+    ∧ (∀ x, alookup c.data k = some x → (CacheG.take ts c k v f t).2.result = some x)
+    ∧ (CacheG.get ts c k).2.result = alookup c.data k := by
+  unfold CacheG.take CacheG.get
+  cases h : alookup c.data k with
+  | none => cases f <;> simp
+  | some x => simp
+
+/-- **`Get` returns the latest value set unless the entry was deleted, expired or evicted.**  After
+`Set k v` in an invariant state (not expired on the spot: see `set_expires_later`), and any history that does not
+address `k` and in which no operation reports `k` as evicted or expired, `Get k` returns `v`. -/
+theorem cache_get_latest_unless_gone {T : Type} (ts : TStep T) (c : CacheG T) (h : c.Inv) (k v t : Nat)
+    (ops : List COp) (hnow : k ∉ (CacheG.set ts c k v t).2.expired)
+    (hun : ∀ op, op ∈ ops → touches k op = false)
+    (hgone : ∀ o, o ∈ CacheG.run ts (CacheG.set ts c k v t).1 ops → k ∉ o.evicted ∧ k ∉ o.expired) :
+    (CacheG.get ts (CacheG.after ts (CacheG.set ts c k v t).1 ops) k).2.result = some v := by
+  rw [(take_loads_only_on_miss ts _ k 0 false 0).2.2]
+  rw [frame_run ts ops _ (inv_set ts c k v t h) k hun hgone, set_lookup ts c k v t h k]
+  have hev : k ∉ (CacheG.set ts c k v t).2.evicted := by
+    rcases cache_evicts_lru_order ts c h k v t with e | ⟨old, e, _, hne, _⟩
+    · rw [e]; simp
+    · rw [e]; simp only [List.mem_singleton]; exact fun x => hne x.symm
+  simp [hnow, hev]
+
+/-- with an expiry of at least one wheel interval nothing expires at the `Set` itself (timer table; by
+`cache_refines_timer_table` the same holds for the wheel) -/
+theorem set_expires_later (c : Spec.ACache) (k v t : Nat) (ht : 1 ≤ t) :
+    (CacheG.set C12.Spec.step c k v t).2.expired = [] := by
+  unfold CacheG.set
+  dsimp only
+  rw [table_no_immediate_fire _ k v t _ ht]
+  rfl
+
+/-- limit 2: keys 1, 2 set, 1 read (moves to front), 3 set → 2 is evicted, 1 and 3 stay; expiry after 3 ticks -/
+example : (CacheG.run C12.step (Cache.new 2 300) [.set 1 10 3, .set 2 20 3, .get 1, .set 3 30 5, .get 2, .get 1, .tick, .tick, .tick, .get 1, .get 3]).map
+      (fun o => (o.evicted, o.expired, o.result))
+    = [([], [], none), ([], [], none), ([], [], some 10), ([2], [], none), ([], [], none), ([], [], some 10),
+       ([], [], none), ([], [], none), ([], [1], none), ([], [], none), ([], [], some 30)] := by decide
+
+/-- the pinned behaviour outside the property's range: an expiry below one wheel interval on an *existing* key
+takes the `MoveTimer(delay < interval)` path, which runs the callback at once — the entry just set is deleted -/
+example : (CacheG.run C12.step (Cache.new 0 300) [.set 1 10 1, .set 1 11 0, .get 1]).map (fun o => (o.expired, o.result))
+    = [([], none), ([1], none), ([], none)] := by decide
 
 end GoZero.C16
